@@ -4465,3 +4465,59 @@ func runERRIS(c *Ctx, r *Result, rule string, fns []*ssa.Function) int {
 	}
 	return n
 }
+
+// ---------------------------------------------------------------------------------------
+// HALFADD (C18): rounding to the nearest integer is not floor(x + 0.5).
+//
+// x + 0.5 is itself rounded: for the largest double below 0.5 (0.49999999999999994) the sum is
+// exactly 1.0, so math.Floor(x + 0.5) gives 1 where the nearest integer is 0; the same happens
+// for odd integers above 2^52, where x + 0.5 rounds up to the next even number. math.Round and
+// math.RoundToEven exist because of this. Rule: under the number functions no value of the
+// forms math.Floor(v + 0.5), math.Ceil(v - 0.5), math.Trunc(v ± 0.5).
+// ---------------------------------------------------------------------------------------
+
+func runHALFADD(c *Ctx, r *Result, rule string, fns []*ssa.Function) int {
+	isHalf := func(v ssa.Value, want float64) bool {
+		k, ok := v.(*ssa.Const)
+		if !ok || k.Value == nil {
+			return false
+		}
+		f, _ := constant.Float64Val(constant.ToFloat(k.Value))
+		return f == want
+	}
+	n, scanned := 0, 0
+	for _, f := range fns {
+		ord := 0
+		for _, ci := range callsIn(f) {
+			g := ci.Common().StaticCallee()
+			if g == nil || len(ci.Common().Args) != 1 {
+				continue
+			}
+			name := g.String()
+			if name != "math.Floor" && name != "math.Ceil" && name != "math.Trunc" {
+				continue
+			}
+			scanned++
+			bo, ok := ci.Common().Args[0].(*ssa.BinOp)
+			if !ok || !isFloatT(bo.Type()) {
+				continue
+			}
+			half := false
+			switch bo.Op {
+			case token.ADD:
+				half = isHalf(bo.X, 0.5) || isHalf(bo.Y, 0.5) || isHalf(bo.X, -0.5) || isHalf(bo.Y, -0.5)
+			case token.SUB:
+				half = isHalf(bo.Y, 0.5) || isHalf(bo.Y, -0.5)
+			}
+			if !half {
+				continue
+			}
+			ord++
+			n++
+			r.Add(Obligation{Rule: rule, Key: fmt.Sprintf("%s:%s-half#%d", shortFn(f), g.Name(), ord), Fn: shortFn(f), Pos: c.W.Pos(ci.Pos()), Nontrivial: true,
+				Verdict: Finding, Reason: "math." + g.Name() + " of a value plus or minus 0.5 is used as rounding to the nearest integer: the addition is itself rounded, so the largest double below 0.5 (0.49999999999999994) becomes 1 instead of 0 and odd integers above 2^52 move to the next even number; math.Round / math.RoundToEven do it exactly"})
+		}
+	}
+	r.Count(rule+" math.Floor/Ceil/Trunc calls scanned", scanned)
+	return n
+}
